@@ -23,7 +23,7 @@ func ResetWatchCache() {
     },
     'watch': {
         'pkg': 'zzverif/worlds/watch',
-        'rewrite': [('cmd/templ/generatecmd', 'sync,os'), ('parser/v2', 'os')],
+        'rewrite': [('cmd/templ/generatecmd', 'sync,os'), ('parser/v2', 'os'), ('cmd/templ/generatecmd/watcher', 'sync')],
         'needs_templ': True,
         'prep_hook': 'watch_corpus',
         'extra_dirs': ['watchgen'],
@@ -39,6 +39,11 @@ func ResetWatchCache() {
 	watchModeCache = map[string]watchState{}
 	watchStateMutex.Unlock()
 }
+''', 'cmd/templ/generatecmd/watcher/zz_verif_export.go': '''package watcher
+
+// Loop runs the event loop (coalescing of file system events) of a watcher built with
+// NewRecursiveWatcher; Recursive starts it on a real fsnotify watcher.
+func (w *RecursiveWatcher) Loop() { w.loop() }
 '''},
     },
     'gen': {
@@ -194,7 +199,7 @@ PROPS = {
         'level': 'exploration',
         'builds': {'default': {}},
         'tiers': {
-            'quick': {'runs': 6000, 'families': 40, 'params': {'max_actions': 40}, 'per_run_timeout': 5.0},
+            'quick': {'runs': 4000, 'families': 40, 'params': {'max_actions': 40}, 'per_run_timeout': 5.0},
             'thorough': {'runs': 120000, 'families': 250, 'params': {'max_actions': 120}, 'per_run_timeout': 10.0, 'shrink_budget_s': 300},
         },
         'rule': 'prep draws (from VERIF_SEED) N families of template variants v0->..->vk (k<=5) by the edit operators of the statement (static text edits incl. quotes, backslashes, '
@@ -206,7 +211,7 @@ PROPS = {
         'real': ['FSEventHandler.HandleEvent/generate (text file writing, hash suppression, GoUpdated/TextUpdated)', 'generator.HasChanged', 'runtime.WriteString development-mode path with its mtime/TTL cache',
                  'generated code of every variant (working tree generator)', 'parser'],
         'stubbed': ['clock (synctest fake clock)', 'the source file (simos overlay: content + mtime from the fake clock)', 'the editor', 'rebuild+restart of the app and restart of the watcher (model)',
-                    'fsnotify, the 100 ms coalescing in watcher.loop and the post-generation debounce in cmd.go are not run'],
+                    'fsnotify itself (half of the runs feed raw Write events into the real watcher.loop through a backend-less fsnotify.Watcher value, so its 100 ms coalescing runs on the fake clock); the post-generation debounce in cmd.go is not run'],
         'assumptions': ['two saves never share an mtime tick (the model advances the fake clock by 1 ms before every write)', 'renders inside the 100 ms TTL window are only required to equal some variant the text file has held since the build',
                         'a restarted watcher handles every file once and the program is rebuilt, as the initial walk of templ generate --watch does'],
     },
